@@ -8,6 +8,7 @@ CONSTANTS
   Steps = {1, 2}
   KindRule = "own"
   Bug = "none"
+  ExpiryJitter = 0
   Depth = 24
 INVARIANT Emit
 CHECK_DEADLOCK FALSE
